@@ -63,7 +63,9 @@ class DataDirectory(StorageFrontend):
         with open(self._run_meta_path(run_id), mode="w") as f:
             if "name" not in metadata:
                 metadata["name"] = run_id
-            f.write(json.dumps(metadata, sort_keys=True, indent=4, default=json_util.default))
+            # Keep the order of the keys: sub_run_spec lists the subruns
+            # of a superrun in order of run start
+            f.write(json.dumps(metadata, indent=4, default=json_util.default))
 
     def _scan_runs(self, store_fields):
         """Iterable of run document dictionaries.
